@@ -77,7 +77,8 @@ def rule_chain(ctx):
     ok_loop = loops in ((W(sorted_syms),), (W(alt_sorted),))
     ctx.add("CHAIN", "sorted-consecutive", ok_loop and not conds, site,
             "the axioms range over windows(2) of the *sorted* vector of self.symbols() (the source of the symbol declarations), unconditionally", construct=loops)
-    ctx.add("CHAIN", "template", item[1] == "tff(symbol_order_{i}, axiom, p__less__(f__symbolic__({}), f__symbolic__({}))).\n", site, "axiom: p__less__(f__symbolic__(s0), f__symbolic__(s1))")
+    import re as _re
+    ctx.add("CHAIN", "template", _re.sub(r"\{\w*\}", "{}", item[1]) == "tff(symbol_order_{}, axiom, p__less__(f__symbolic__({}), f__symbolic__({}))).\n", site, "axiom: p__less__(f__symbolic__(s0), f__symbolic__(s1))")
     if ok_loop:
         E = ("each", loops[0])
         a0 = ("index", ("proj", E, (("tuple", "1"),)), ("lit", 0))
